@@ -87,5 +87,21 @@ theorem applyRegions_last (a : Nat) (l1 l2 : List RemapRegion) (g : RemapRegion)
   | nil => simp only [List.nil_append, applyRegions, hg, if_true]; exact applyRegions_none c a l2 _ h2
   | cons g0 rest ih => simp only [List.cons_append, applyRegions]; exact ih _
 
+/-- The origin/mask-remapped word address fits the master's address width when the origin does. -/
+theorem adrRemap_lt (ho : c.origin >>> c.shift < 2 ^ c.aw) (a : Nat) : adrRemap c a < 2 ^ c.aw := by
+  unfold adrRemap
+  apply Nat.or_lt_two_pow ho
+  exact Nat.lt_of_le_of_lt (Nat.mod_le _ _) (Nat.mod_lt _ (Nat.two_pow_pos _))
+
+/-- **No truncation** (all bus widths): the byte-address temporary holds the exact byte address
+    `adr_remap << shift` whenever the origin lies inside the bus's address space. -/
+theorem srcAdr_exact (ho : c.origin >>> c.shift < 2 ^ c.aw) (a : Nat) : srcAdr c a = adrRemap c a * 2 ^ c.shift := by
+  unfold srcAdr tmpBits
+  apply Nat.mod_eq_of_lt
+  have h := adrRemap_lt c ho a
+  calc adrRemap c a * 2 ^ c.shift < 2 ^ c.aw * 2 ^ c.shift := Nat.mul_lt_mul_of_pos_right h (Nat.two_pow_pos _)
+    _ = 2 ^ (c.aw + c.shift) := (Nat.pow_add 2 c.aw c.shift).symm
+    _ ≤ 2 ^ (c.aw + c.shift + 1) := Nat.pow_le_pow_right (by omega) (by omega)
+
 end Remap
 end Litex.WbMem
